@@ -9,6 +9,7 @@ package c09
 
 import (
 	"encoding/json"
+	"errors"
 	"fmt"
 	"io"
 	"net/http"
@@ -69,10 +70,19 @@ type atomicWriter struct {
 	mu     sync.Mutex
 	lines  int
 	broken int // writes that were not exactly one complete record line
+	// failAt > 0: that write (counted from 1) is refused once, as a full pipe or a log rotation
+	// does; refused counts the refusals
+	failAt, writes, refused int
 }
 
 func (w *atomicWriter) Write(p []byte) (int, error) {
 	w.mu.Lock()
+	w.writes++
+	if w.writes == w.failAt {
+		w.refused++
+		w.mu.Unlock()
+		return 0, errors.New("verif: trace sink temporarily unavailable")
+	}
 	w.lines += strings.Count(string(p), "\n")
 	// a trace record is one JSON document on one line, handed over in one piece: a sink shared by
 	// concurrent requests (a file, a pipe) would otherwise see records run into each other
@@ -663,7 +673,7 @@ func newTTLMap() *instance {
 
 func newTracer() *instance {
 	var served atomic.Int64
-	w := &atomicWriter{}
+	w := &atomicWriter{failAt: 7} // one record early in the run is refused by the sink; the others are unaffected
 	tr, err := trace.New(statusHandler(&served), w, trace.RequestHeaders("X-Src"), trace.ResponseHeaders("Content-Type"))
 	if err != nil {
 		panic(err)
@@ -680,8 +690,8 @@ func newTracer() *instance {
 			if w.broken > 0 {
 				return fmt.Sprintf("%d writes to the trace sink were not exactly one complete JSON record line", w.broken)
 			}
-			if int64(w.lines) != requests.Load() || served.Load() != requests.Load() {
-				return fmt.Sprintf("%d requests, %d trace records, %d handler invocations", requests.Load(), w.lines, served.Load())
+			if int64(w.lines+w.refused) != requests.Load() || served.Load() != requests.Load() {
+				return fmt.Sprintf("%d requests, %d trace records (+ %d refused by the sink), %d handler invocations", requests.Load(), w.lines, w.refused, served.Load())
 			}
 			return ""
 		},
@@ -876,9 +886,23 @@ func run(p *program) string {
 		}(g, ops)
 	}
 	close(startGate)
-	wg.Wait()
+	finished := make(chan struct{})
+	go func() { wg.Wait(); close(finished) }()
+	limit := 60 * time.Second // the programs take milliseconds
+	if programStalled.Load() {
+		limit = 3 * time.Second // a stall was seen in this process already: shrinking re-runs variants of it
+	}
+	select {
+	case <-finished:
+	case <-time.After(limit):
+		programStalled.Store(true)
+		return fmt.Sprintf("the program did not finish within %v: its goroutines are stuck inside the middleware (requests and administration / inspection calls wait for each other)", limit)
+	}
 	return inst.after()
 }
+
+// programStalled: a program that never finished was seen in this process.
+var programStalled atomic.Bool
 
 func replayPath(name string) string {
 	if d := os.Getenv("VERIF_WORK"); d != "" {
